@@ -59,7 +59,7 @@ package nexus
 //@   ensures [consumes_at_least_one_rune_unless_at_end] old(remaining(s.r)) > 0 ==> remaining(s.r) < old(remaining(s.r))
 //@   ensures [token] tok == WS
 //@   loop 1
-//@     assigns stream(s.r)
+//@     assigns stream(s.r), content(buf)
 //@     invariant [progress_so_far] remaining(s.r) >= 0 && remaining(s.r) <= old(remaining(s.r)) && (old(remaining(s.r)) > 0 ==> remaining(s.r) < old(remaining(s.r)))
 //@     decreases remaining(s.r)
 
@@ -70,7 +70,7 @@ package nexus
 //@   ensures [never_gives_back_more_than_it_took] remaining(s.r) <= old(remaining(s.r)) && remaining(s.r) >= 0
 //@   ensures [consumes_at_least_one_rune_unless_at_end] old(remaining(s.r)) > 0 ==> remaining(s.r) < old(remaining(s.r))
 //@   loop 1
-//@     assigns stream(s.r)
+//@     assigns stream(s.r), content(buf)
 //@     invariant [progress_so_far] remaining(s.r) >= 0 && remaining(s.r) <= old(remaining(s.r)) && (old(remaining(s.r)) > 0 ==> remaining(s.r) < old(remaining(s.r)))
 //@     decreases remaining(s.r)
 
